@@ -97,14 +97,77 @@ class World:
         return out
 
     # ---- the calls --------------------------------------------------------
+    def ensure(self, op):
+        """Create (outside any context) the cached object the call `op` works on."""
+        qr = self.qr
+        name = op[0]
+        if name == "propagate":
+            _, theory, td, rho, nref = op
+            key = "%s/%s" % (theory, td)
+            if key not in self.props:
+                kw = {}
+                if theory == "combined_RedfieldFoerster":
+                    kw["coupling_cutoff"] = qr.convert(50.0, "1/cm", "int")
+                p = self.agg.get_ReducedDensityMatrixPropagator(
+                    self.ta, relaxation_theory=theory, time_dependent=td, **kw)
+                self.props[key] = (p, {"Nref": 1})
+        elif name == "propagate_free":
+            if "free" not in self.props:
+                p = qr.qm.ReducedDensityMatrixPropagator(self.ta, self.ham)
+                self.props["free"] = (p, {"Nref": 1})
+        elif name == "sv":
+            if self.svprop is None:
+                self.svprop = qr.qm.StateVectorPropagator(self.ta, self.ham)
+                v = numpy.zeros(self.ham.dim, dtype=complex)
+                v[1] = 0.8
+                v[2] = 0.6j
+                self.psi = qr.qm.StateVector(data=v)
+        elif name == "pop":
+            if self.popprop is None:
+                from quantarhei.qm.propagators.poppropagator import PopulationPropagator
+                rr = self.agg.get_RedfieldRateMatrix()
+                self.popprop = PopulationPropagator(self.ta, rr)
+        elif name == "heom":
+            if self.hprop is None:
+                self.hprop = self.agg.get_KTHierarchyPropagator(depth=self.cfg["hdepth"])
+
     def call(self, op):
         qr = self.qr
         name = op[0]
+        self.ensure(op) if name != "in" else None
+        if name == "in":
+            # the same call made inside an ambient context of the caller
+            _, ctx, inner = op
+            # propagator / hierarchy objects a call works on are part of its inputs; they are
+            # always created outside any ambient context (here), so that a history and its twin
+            # differ only in the calls made in between
+            self.ensure(list(inner))
+            if ctx == "units":
+                with qr.energy_units("1/cm"):
+                    return self.call(list(inner))
+            if ctx == "basis":
+                with qr.eigenbasis_of(self.ham):
+                    return self.call(list(inner))
+            raise isolation.HarnessError(ctx)
+        if name == "refill":
+            # the USER overwrites the content of an initial-state object (same object identity)
+            _, rho, which = op
+            d = self.ham.dim
+            r = numpy.zeros((d, d), dtype=complex)
+            if which == 1:
+                r[1, 1] = 1.0
+            else:
+                r[1, 1] = 0.25
+                r[2, 2] = 0.75
+                r[1, 2] = 0.1j
+                r[2, 1] = -0.1j
+            self.rho[rho].data = r
+            return {"refilled": r}
         if name == "tensor":
             _, theory, td, sec = op
             kw = {}
             if theory == "combined_RedfieldFoerster":
-                kw["coupling_cutoff"] = qr.convert(50.0, "1/cm", "int")
+                kw["coupling_cutoff"] = qr.convert(50.0, "1/cm")   # in the current units
             RR, hh = self.agg.get_RelaxationTensor(self.ta, relaxation_theory=theory,
                                                    time_dependent=td, secular_relaxation=sec, **kw)
             return {"tensor": numpy.array(RR.data, copy=True), "ham": numpy.array(hh._data, copy=True)}
@@ -114,7 +177,7 @@ class World:
             if key not in self.props:
                 kw = {}
                 if theory == "combined_RedfieldFoerster":
-                    kw["coupling_cutoff"] = qr.convert(50.0, "1/cm", "int")
+                    kw["coupling_cutoff"] = qr.convert(50.0, "1/cm")   # in the current units
                 p = self.agg.get_ReducedDensityMatrixPropagator(
                     self.ta, relaxation_theory=theory, time_dependent=td, **kw)
                 self.props[key] = (p, {"Nref": 1})
@@ -203,6 +266,22 @@ def menu(tier):
            ["rates", "redfield"], ["rates", "foerster"],
            ["abs"], ["dm", "thermal"], ["dm", "impulsive_excitation"]]
     ops = [o for o in ops if o is not None]
+    ops += [["propagate", "noneq_Foerster", True, "rho0", 1],
+            ["propagate", "noneq_Foerster", True, "rho1", 1],
+            ["refill", "rho0", 1], ["refill", "rho0", 2]]
+    ctxable = [["tensor", "standard_Redfield", False, False],
+               ["tensor", "combined_RedfieldFoerster", False, False],
+               ["propagate", "standard_Redfield", False, "rho0", 1],
+               ["propagate", "combined_RedfieldFoerster", False, "rho0", 1],
+               ["propagate_free", "rho0"], ["sv"], ["eso", "all"], ["rates", "redfield"]]
+    if tier == "thorough":
+        ctxable += [["tensor", "standard_Foerster", False, False],
+                    ["propagate", "standard_Foerster", False, "rho0", 1],
+                    ["propagate", "standard_Redfield", True, "rho0", 1],
+                    ["heom", "rho0"], ["abs"], ["dm", "thermal"], ["pop"]]
+    for c in ("units", "basis"):
+        for o in ctxable:
+            ops.append(["in", c, o])
     if tier == "thorough":
         ops += [["propagate", "standard_Redfield", False, "rho0", 2],
                 ["tensor", "standard_Foerster", True, False],
@@ -215,6 +294,16 @@ CFGS = {"quick": {"nsites": 2, "nt": 40, "dt": 2.0, "hdepth": 2},
         "thorough": {"nsites": 3, "nt": 60, "dt": 2.0, "hdepth": 2}}
 
 
+def _name(op):
+    if op[0] == "in":
+        return "in-%s(%s)" % (op[1], _name(op[2]))
+    return "/".join(str(x) for x in op)
+
+
+def _kind(op):
+    return ("in-%s:" % op[1] + op[2][0]) if op[0] == "in" else op[0]
+
+
 def _cmp_results(a, b):
     bad = []
     for k in a:
@@ -223,6 +312,16 @@ def _cmp_results(a, b):
         if k not in b:
             bad.append((k, float("inf")))
             continue
+        x, y = numpy.asarray(a[k]), numpy.asarray(b[k])
+        if x.shape == y.shape and x.size:
+            fx, fy = numpy.isfinite(x), numpy.isfinite(y)
+            if not (fx.all() and fy.all()):
+                # non-finite results (a calculation that overflows, e.g. made under non-internal
+                # units) are compared position by position: same pattern and equal finite part
+                if (fx == fy).all() and numpy.allclose(x[fx], y[fy], rtol=1e-9, atol=0):
+                    continue
+                bad.append((k, float("inf")))
+                continue
         ok, err = approx(a[k], b[k], TOL)
         if not ok:
             bad.append((k, err))
@@ -250,16 +349,25 @@ def execute(hist):
         if last:
             after = w.snapshot()
             changed = World.diff(before, after)
-            opname = "/".join(str(x) for x in op)
+            if op[0] == "refill":
+                changed = [c for c in changed if c != "%s._data" % op[1]]
+            opname = _name(op)
             for c in changed:
-                viol.append(("input-changed/%s/by-%s" % (c, op[0] if op[0] != "tensor" else opname),
+                viol.append(("input-changed/%s/by-%s" % (c, _kind(op) if _kind(op) != "tensor" else opname),
                              "%s changed %s" % (opname, c), None))
             # twin world: the same call as the first call on fresh objects, same settings
             isolation.reset_manager()
             tw = World(cfg)
+            for prev in hist[:-1]:            # the user's own writes are part of the inputs
+                if prev[0] == "refill":
+                    tw.call(list(prev))
             twop = list(op)
-            if op[0] == "propagate" and res is not None and res.get("_settings", {}).get("Nref", 1) > 1:
-                twop[4] = res["_settings"]["Nref"]
+            inner = twop[2] if twop[0] == "in" else twop
+            if inner[0] == "propagate" and res is not None and \
+                    res.get("_settings", {}).get("Nref", 1) > 1:
+                inner = list(inner)
+                inner[4] = res["_settings"]["Nref"]
+                twop = ["in", twop[1], inner] if twop[0] == "in" else inner
             try:
                 ref = tw.call(twop)
                 tcr = None
@@ -267,23 +375,28 @@ def execute(hist):
                 ref = None
                 tcr = "%s: %s" % (type(e).__name__, str(e)[:120])
             if (res is None) != (ref is None):
-                viol.append(("call-outcome-depends-on-history/%s" % op[0],
+                viol.append(("call-outcome-depends-on-history/%s" % _kind(op),
                              "%s after %r: %s ; on fresh objects: %s"
-                             % (opname, [o[0] for o in hist[:-1]], crashed or "returned",
+                             % (opname, [_name(o) for o in hist[:-1]], crashed or "returned",
                                 tcr or "returned"), None))
             elif res is not None:
                 for k, err in _cmp_results(res, ref):
-                    viol.append(("result-depends-on-history/%s/%s" % (op[0], k),
+                    viol.append(("result-depends-on-history/%s/%s" % (_kind(op), k),
                                  "%s after %r differs from the same call on fresh objects by %g "
-                                 "in %s" % (opname, ["/".join(str(x) for x in o) for o in hist[:-1]],
+                                 "in %s" % (opname, [_name(o) for o in hist[:-1]],
                                             err, k), {"err": err}))
     seen, v2 = set(), []
     for v in viol:
         if v[0] not in seen:
             seen.add(v[0])
             v2.append(v)
-    done = sorted(set("/".join(str(x) for x in o) for o in hist))
-    key = [done]
+    done = sorted(set(_name(o) for o in hist if o[0] != "refill"))
+    # the content of the initial states is part of the state (last refill per object)
+    last = {}
+    for o in hist:
+        if o[0] == "refill":
+            last[o[1]] = o[2]
+    key = [done, sorted(last.items())]
     dig = None
     if res is not None:
         dig = [round(float(numpy.abs(v).sum()), 8) for k, v in res.items() if not k.startswith("_")]
@@ -318,7 +431,19 @@ def run(run):
                        "derived caches (integrated correlation functions) are not inputs"]
     run.bounds = {"depth": depth, "menu": len(execute.menu), "system": CFGS[run.tier]}
     n0 = len(run.viol)
-    run_bfs(run, execute, depth, cap_s=55 if run.tier == "quick" else 780)
+    run_bfs(run, execute, depth, cap_s=45 if run.tier == "quick" else 660, section="full-menu")
+    # deeper histories over a small menu that concentrates on re-used state objects: the same
+    # initial-state object refilled by the user between calls, theories with an initial term
+    full = execute.menu
+    execute.menu = [["propagate", "noneq_Foerster", True, "rho0", 1],
+                    ["propagate", "noneq_Foerster", True, "rho1", 1],
+                    ["propagate", "standard_Redfield", False, "rho0", 1],
+                    ["propagate", "standard_Foerster", False, "rho0", 1],
+                    ["refill", "rho0", 1], ["refill", "rho0", 2], ["refill", "rho1", 2],
+                    ["eso", "all"], ["heom", "rho0"]]
+    run_bfs(run, execute, depth + 1, cap_s=25 if run.tier == "quick" else 240,
+            section="refill-focus")
+    execute.menu = full
     for j in range(n0, len(run.viol)):
         k, what, case, det = run.viol[j]
         case = dict(case or {})
